@@ -1256,6 +1256,10 @@ func stringToTTL(token string) (uint32, bool) {
 		default:
 			return 0, false
 		}
+		// Bail out early, so that neither i nor s can wrap around.
+		if i > math.MaxUint32 || s > math.MaxUint32 {
+			return 0, false
+		}
 	}
 	if s+i > math.MaxUint32 {
 		return 0, false
